@@ -56,6 +56,17 @@ func init() {
 	probes["O53"] = probeO53
 	probes["O54"] = probeO54
 	probes["O55"] = probeO55
+	probes["O77"] = func() (bool, string) {
+		return guard(func() (bool, string) {
+			c, _ := ucfg.NewFrom(map[string]interface{}{"m": map[string]interface{}{"k": []int{1, 2}}, "p": []int{3, 4}})
+			var to struct {
+				M map[string][2]int
+				P *[2]int
+			}
+			err := c.Unpack(&to)
+			return err != nil || to.M["k"] != [2]int{1, 2} || to.P == nil || *to.P != [2]int{3, 4}, fmt.Sprint(err)
+		})
+	}
 	probes["O76"] = func() (bool, string) {
 		return guard(func() (bool, string) {
 			r, x, d := ucfg.New(), ucfg.New(), ucfg.New()
